@@ -35,7 +35,7 @@ CHECKS = {
          "Generated well-formed values of every header (and MIKEY message) are marshalled and re-parsed by the real code and compared; every parser input (conflict mixes, marshalled forms, mutations, fuzz corpora, PRNG bytes) is parsed 24 times into fresh values that must all agree; panics are caught. NPT values 0..10^6 ms are swept exhaustively.",
          "Error texts are not compared ('same failure' = fails again). A 2-way map-order conflict escapes 24 parses with probability 2^-23.", "DESIGN.md section 3 C09"),
  "C10": ("exploration", "completeness / soundness monitor over generated credentials with single-field perturbations; wire-level monitor against a live server",
-         "Requests signed by the library's client side are verified by the library's server side for generated users / passwords / realms / nonces / methods / URLs and every method subset; each single-field perturbation must be rejected (except the documented SETUP relaxation); 401 / connection-fate behaviour is observed on real connections.",
+         "Requests signed by the library's client side are verified by the library's server side for generated users / passwords / realms / nonces / methods / URLs and every method subset; each single-field perturbation must be rejected (except the documented SETUP relaxation); 401 / connection-fate behaviour is observed on real connections, including library clients that authenticate again on a second connection (redirect of the authenticated DESCRIBE, UDP-to-TCP fallback).",
          "User names without ':' and '\"' as the property states.", "DESIGN.md section 3 C10"),
  "C11": ("exploration", "grammar-aware and byte-level mutation of RTSP conversations against a live server in a child process; liveness, canary-client, goroutine / callback / registration census monitors; race detector",
          "Mutated conversations (plus deterministic families: boundary values, handler-refused requests, one session driven from several connections, simultaneous tunnel channels, readers that stop reading / keep flooding) are logged and sent to a real Server running in a child process; monitors check process survival, answer-or-close within timeouts, a concurrently served well-behaved client, and that goroutines, sessions, UDP registrations and reader slots return to baseline after hostile connections end.",
